@@ -197,23 +197,25 @@ static uint64_t alias_arg(Rng & r, Kind k, uint64_t v, AliasKind & kind)
   }
 
 struct Item { uint8_t client; uint16_t op; uint64_t a, b; uint8_t alias; int16_t alias_of; };
-struct Plan { int clients; std::vector<Item> items; uint64_t hash; bool nontrivial; };
+struct Plan { int clients; std::vector<Item> items; std::vector<std::pair<uint32_t, uint8_t>> respawn; uint64_t hash; bool nontrivial; };
 
 static Plan gen_plan(uint64_t seed, int min_clients)
   {
   Rng r(seed ^ 0x5851f42d4c957f2dull);
   Plan p;
   unsigned kc = r.below(100);
-  p.clients = kc < 30 ? 1 : kc < 65 ? 2 : kc < 85 ? 3 : 4;
+  p.clients = kc < 28 ? 1 : kc < 60 ? 2 : kc < 78 ? 3 : kc < 92 ? 4 : 5 + static_cast<int>(r.below(4));
   if (p.clients < min_clients) p.clients = min_clients;
   size_t n = 6 + r.below(40);
   // swarm: a few focus operations per run so the same entry point is hit repeatedly
   size_t nfocus = 1 + r.below(4);
   // a few runs are long and narrow: hundreds of calls to one or two entry points, mostly with fresh arguments, so that
   // small caches fill, evict and wrap, and call counters get somewhere
-  bool long_run = r.below(100) < 3;
+  unsigned lr = static_cast<unsigned>(r.below(1000));
+  bool long_run = lr < 40, very_long = lr < 10;
   if (long_run) { n = 150 + r.below(1100); nfocus = 1 + r.below(2); }
-  unsigned alias_pct = long_run ? 35 : 60, focus_pct = long_run ? 97 : 85;
+  if (very_long) { n = 3000 + r.below(9000); }           // enough distinct arguments to fill and wrap a few-thousand-entry table
+  unsigned alias_pct = very_long ? 20 : long_run ? 35 : 60, focus_pct = long_run ? 97 : 85;
   std::vector<uint16_t> focus;
   for (size_t i = 0; i < nfocus; ++i)
     {
@@ -268,7 +270,16 @@ static Plan gen_plan(uint64_t seed, int min_clients)
     if (it.alias_of >= 0) p.nontrivial = true;
     p.items.push_back(it);
     }
+  // thread churn: some runs retire caller threads and start new ones in their place (fresh thread-local state,
+  // a growing count of threads the library has ever seen)
+  if (r.chance(15))
+    {
+    size_t cnt = r.chance(50) ? 1 + r.below(4) : 6 + r.below(14);
+    for (size_t k = 0; k < cnt; ++k) p.respawn.push_back({static_cast<uint32_t>(r.below(n)), static_cast<uint8_t>(r.below(p.clients))});
+    std::sort(p.respawn.begin(), p.respawn.end());
+    }
   uint64_t h = mix64(0x1234, static_cast<uint64_t>(p.clients));
+  for (auto & e : p.respawn) h = mix64(h, (static_cast<uint64_t>(e.first) << 8) | e.second);
   for (const Item & it : p.items) { h = mix64(h, it.client); h = mix64(h, it.op); h = mix64(h, it.a); h = mix64(h, it.b); }
   p.hash = h;
   return p;
@@ -279,13 +290,19 @@ static Plan gen_plan(uint64_t seed, int min_clients)
 static const uint8_t SW_START = 255;
 static const uint32_t SW_AT_END = 0xffffffffu;
 struct Switch { uint8_t from; uint32_t idx; uint8_t to; };   // from = SW_START: who runs first; idx = SW_AT_END: when from's call returns
-struct Segment { std::vector<int> items; std::vector<Switch> script; unsigned den; int budget; };
+struct Segment { std::vector<int> items; std::vector<Switch> script; unsigned den; int budget; std::vector<uint8_t> respawn; };
 struct Schedule { int clients; std::vector<Item> items; std::vector<Segment> segs; };
 
-static Schedule serial_schedule(const std::vector<Item> & items, const std::vector<int> & order, int clients)
+using Respawns = std::vector<std::pair<uint32_t, uint8_t>>;      // (before the segment that holds item #first, restart client #second)
+static Schedule serial_schedule(const std::vector<Item> & items, const std::vector<int> & order, int clients, const Respawns & rs = Respawns())
   {
   Schedule s; s.clients = clients; s.items = items;
-  for (int i : order) { Segment g; g.items = {i}; g.den = 0; g.budget = 0; s.segs.push_back(g); }
+  for (int i : order)
+    {
+    Segment g; g.items = {i}; g.den = 0; g.budget = 0;
+    for (auto & e : rs) if (static_cast<int>(e.first) == i) g.respawn.push_back(e.second);
+    s.segs.push_back(g);
+    }
   return s;
   }
 
@@ -312,6 +329,7 @@ static Schedule fine_schedule(const Plan & p, uint64_t sched_seed)
         g.items.push_back(static_cast<int>(j)); ++j;
         }
       }
+    for (auto & e : p.respawn) if (e.first >= i && e.first < j) g.respawn.push_back(e.second);
     s.segs.push_back(g);
     i = j;
     }
@@ -341,6 +359,7 @@ enum { ST_OUT = 0, ST_PENDING = 1, ST_RUNNING = 2, ST_DONE = 3 };
 struct ClientSlot { sem_t go; const Item * item; Res res; bool quit; };
 static ClientSlot g_slots[8];
 static sem_t g_done;
+static uint64_t g_threads_started = 0;
 static struct
   {
   bool active = false;          // a multi-call segment is in flight
@@ -480,12 +499,21 @@ static void write_all(int fd, const void * p, size_t n)
     {
     sem_init(&g_slots[c].go, 0, 0); g_slots[c].quit = false;
     if (pthread_create(&th[c], nullptr, client_main, &g_slots[c]) != 0) _exit(3);
+    ++g_threads_started;
     }
   g_fine.nclients = sc.clients; g_fine.scripted = scripted; g_fine.rng = Rng(sched_seed ^ 0x9e3779b97f4a7c15ull);
   std::vector<Res> out(sc.items.size(), Res{255, 0, 0});
   for (size_t si = 0; si < sc.segs.size(); ++si)
     {
     const Segment & g = sc.segs[si];
+    for (uint8_t c : g.respawn)
+      if (c < sc.clients)
+        {   // retire the caller thread and start a new one in its place
+        g_slots[c].quit = true; sem_post(&g_slots[c].go); pthread_join(th[c], nullptr);
+        g_slots[c].quit = false;
+        if (pthread_create(&th[c], nullptr, client_main, &g_slots[c]) != 0) _exit(3);
+        ++g_threads_started;
+        }
     if (g.items.empty()) continue;
     g_fine.seg_index = static_cast<uint32_t>(si);
     if (g.items.size() == 1)
@@ -519,7 +547,7 @@ static void write_all(int fd, const void * p, size_t n)
     g_fine.active = false;
     for (int k : g.items) out[k] = g_slots[sc.items[k].client].res;
     }
-  uint64_t hdr[3] = {g_fine.trace.size(), g_fine.yields, g_fine.switches};
+  uint64_t hdr[4] = {g_fine.trace.size(), g_fine.yields, g_fine.switches, g_threads_started};
   write_all(fd, out.data(), out.size() * sizeof(Res));
   write_all(fd, hdr, sizeof hdr);
   if (!g_fine.trace.empty()) write_all(fd, g_fine.trace.data(), g_fine.trace.size() * sizeof(TraceRec));
@@ -528,7 +556,7 @@ static void write_all(int fd, const void * p, size_t n)
 
 // ---------------------------------------------------------------------------------------------
 // zygote side
-static uint64_t g_forks = 0, g_hung = 0, g_yields_total = 0, g_switches_total = 0;
+static uint64_t g_forks = 0, g_hung = 0, g_yields_total = 0, g_switches_total = 0, g_threads_total = 0, g_threads_max = 0;
 struct Outcome { std::vector<Res> res; std::vector<TraceRec> trace; bool complete; };
 
 static bool read_all(int fd, void * p, size_t n, int timeout_ms)
@@ -559,13 +587,13 @@ static Outcome run_schedule(const Schedule & sc, bool scripted, uint64_t sched_s
   if (pid == 0) { close(pf[0]); child_execute(sc, scripted, sched_seed, pf[1]); }
   close(pf[1]);
   Outcome o; o.res.assign(sc.items.size(), Res{255, 0, 0}); o.complete = false;
-  uint64_t hdr[3] = {0, 0, 0};
+  uint64_t hdr[4] = {0, 0, 0, 0};
   const int limit_ms = 10000;
   if (read_all(pf[0], o.res.data(), o.res.size() * sizeof(Res), limit_ms) && read_all(pf[0], hdr, sizeof hdr, limit_ms))
     {
     o.trace.resize(hdr[0]);
     if (hdr[0] == 0 || read_all(pf[0], o.trace.data(), hdr[0] * sizeof(TraceRec), limit_ms)) o.complete = true;
-    g_yields_total += hdr[1]; g_switches_total += hdr[2];
+    g_yields_total += hdr[1]; g_switches_total += hdr[2]; g_threads_total += hdr[3]; if (hdr[3] > g_threads_max) g_threads_max = hdr[3];
     }
   close(pf[0]);
   if (!o.complete) { kill(pid, SIGKILL); ++g_hung; for (auto & r : o.res) r = Res{255, 0, 0}; o.trace.clear(); }
@@ -573,8 +601,8 @@ static Outcome run_schedule(const Schedule & sc, bool scripted, uint64_t sched_s
   return o;
   }
 
-static std::vector<Res> run_serial(const std::vector<Item> & items, const std::vector<int> & order, int clients)
-  { return run_schedule(serial_schedule(items, order, clients), true, 0).res; }
+static std::vector<Res> run_serial(const std::vector<Item> & items, const std::vector<int> & order, int clients, const Respawns & rs = Respawns())
+  { return run_schedule(serial_schedule(items, order, clients, rs), true, 0).res; }
 
 static Res isolated(const Item & it)
   {
@@ -589,8 +617,10 @@ static std::string res_json(const Res & r)
 
 // does executing the (scripted) schedule give item `victim` something other than iso?
 static int g_tests = 0;
+static const int MINIMISE_BUDGET = 400;     // re-executions per finding; a count, not a clock, so the result is reproducible
 static bool fails(const Schedule & sc, int victim, const Res & iso, Res * seen)
   {
+  if (g_tests >= MINIMISE_BUDGET && !seen) return false;       // out of budget: treat every further candidate as "does not fail"
   ++g_tests;
   Outcome o = run_schedule(sc, true, 0);
   if (seen) *seen = o.res[victim];
@@ -621,9 +651,15 @@ static Schedule minimise(Schedule sc, int victim, const Res & iso)
     for (size_t start = 0; start < head.size() && !reduced; start += chunk)
       {
       Schedule t = sc; t.segs.clear();
-      for (size_t i = 0; i < head.size(); ++i) if (i < start || i >= start + chunk) t.segs.push_back(head[i]);
+      std::vector<uint8_t> orphan;      // thread restarts that belonged to the removed segments
+      for (size_t i = 0; i < head.size(); ++i)
+        {
+        if (i < start || i >= start + chunk) { t.segs.push_back(head[i]); if (!orphan.empty()) { auto & rs = t.segs.back().respawn; rs.insert(rs.begin(), orphan.begin(), orphan.end()); orphan.clear(); } }
+        else orphan.insert(orphan.end(), head[i].respawn.begin(), head[i].respawn.end());
+        }
       t.segs.push_back(last);
-      if (fails(t, victim, iso, nullptr)) { head.assign(t.segs.begin(), t.segs.end() - 1); n = std::max<size_t>(n - 1, 2); reduced = true; }
+      if (!orphan.empty()) { auto & rs = t.segs.back().respawn; rs.insert(rs.begin(), orphan.begin(), orphan.end()); }
+      if (fails(t, victim, iso, nullptr)) { last = t.segs.back(); head.assign(t.segs.begin(), t.segs.end() - 1); n = std::max<size_t>(n - 1, 2); reduced = true; }
       }
     if (!reduced) { if (n >= head.size()) break; n = std::min(head.size(), n * 2); }
     }
@@ -655,6 +691,12 @@ static Schedule minimise(Schedule sc, int victim, const Res & iso)
         if (ok) { sc = t; changed = true; } else ++k;
         }
     for (size_t s = 0; s < sc.segs.size(); ++s)
+      for (size_t k = 0; k < sc.segs[s].respawn.size(); )
+        {
+        Schedule t = sc; t.segs[s].respawn.erase(t.segs[s].respawn.begin() + static_cast<long>(k));
+        if (fails(t, victim, iso, nullptr)) { sc = t; changed = true; } else ++k;
+        }
+    for (size_t s = 0; s < sc.segs.size(); ++s)
       for (size_t k = 0; k < sc.segs[s].script.size(); )
         {
         Schedule t = sc; t.segs[s].script.erase(t.segs[s].script.begin() + static_cast<long>(k));
@@ -669,13 +711,19 @@ static std::string schedule_json(const Schedule & sc, int victim)
   {
   // renumber clients densely so a replay needs no more threads than it uses
   std::map<int, int> ren;
-  for (const Segment & g : sc.segs) for (int k : g.items) { int c = sc.items[k].client; if (!ren.count(c)) { int id = static_cast<int>(ren.size()); ren[c] = id; } }
+  for (const Segment & g : sc.segs)
+    {
+    for (uint8_t c : g.respawn) if (!ren.count(c)) { int id = static_cast<int>(ren.size()); ren[c] = id; }
+    for (int k : g.items) { int c = sc.items[k].client; if (!ren.count(c)) { int id = static_cast<int>(ren.size()); ren[c] = id; } }
+    }
   std::string s = "\"clients\":" + std::to_string(ren.size()) + ",\"segments\":[";
   int vseg = -1, vpos = -1;
   for (size_t si = 0; si < sc.segs.size(); ++si)
     {
     const Segment & g = sc.segs[si];
-    s += std::string(si ? "," : "") + "{\"calls\":[";
+    s += std::string(si ? "," : "") + "{\"respawn_before\":[";
+    for (size_t k = 0; k < g.respawn.size(); ++k) s += std::string(k ? "," : "") + std::to_string(ren[g.respawn[k]]);
+    s += "],\"calls\":[";
     for (size_t k = 0; k < g.items.size(); ++k)
       {
       const Item & it = sc.items[g.items[k]];
@@ -728,7 +776,8 @@ static Schedule with_trace(Schedule sc, const std::vector<TraceRec> & tr)
 struct Stats
   {
   std::vector<uint64_t> per_op;
-  uint64_t clients_hist[5] = {0, 0, 0, 0, 0};
+  uint64_t clients_hist[9] = {0, 0, 0, 0, 0, 0, 0, 0, 0};
+  uint64_t long_runs = 0, very_long_runs = 0, churn_runs = 0, respawns = 0, max_plan_len = 0;
   uint64_t alias_same[AL_N] = {0}, alias_cross[AL_N] = {0};
   uint64_t calls = 0, runs = 0, nontrivial = 0, iso_checks = 0, disagreements = 0, signals_seen = 0, lost = 0, findings = 0, unstable = 0;
   uint64_t fine_execs = 0, concurrent_segments = 0, concurrent_calls = 0, preemptions = 0, distinct_traces = 0;
@@ -741,6 +790,10 @@ static void account_plan(Stats & st, const Plan & p, const std::vector<Res> & ra
   {
   size_t n = p.items.size();
   ++st.runs; st.clients_hist[p.clients]++;
+  if (n >= 150) ++st.long_runs;
+  if (n >= 3000) ++st.very_long_runs;
+  if (!p.respawn.empty()) { ++st.churn_runs; st.respawns += p.respawn.size(); }
+  if (n > st.max_plan_len) st.max_plan_len = n;
   if (p.nontrivial) ++st.nontrivial;
   uint64_t d = mix64(seed, p.hash);
   for (size_t i = 0; i < n; ++i)
@@ -786,7 +839,11 @@ static void print_stats(const Stats & st, const char * mode, uint64_t seed0)
                   ",\"concurrent_calls\":" + std::to_string(st.concurrent_calls) + ",\"yield_points\":" + std::to_string(g_yields_total) +
                   ",\"preemptions\":" + std::to_string(st.preemptions) + ",\"baton_handoffs\":" + std::to_string(g_switches_total) +
                   ",\"distinct_decision_traces\":" + std::to_string(st.traces.size()) +
-                  ",\"clients_hist\":[" + std::to_string(st.clients_hist[1]) + "," + std::to_string(st.clients_hist[2]) + "," + std::to_string(st.clients_hist[3]) + "," + std::to_string(st.clients_hist[4]) + "]";
+                  ",\"long_runs\":" + std::to_string(st.long_runs) + ",\"very_long_runs\":" + std::to_string(st.very_long_runs) + ",\"max_plan_len\":" + std::to_string(st.max_plan_len) +
+                  ",\"churn_runs\":" + std::to_string(st.churn_runs) + ",\"planned_respawns\":" + std::to_string(st.respawns) +
+                  ",\"threads_started\":" + std::to_string(g_threads_total) + ",\"max_threads_in_one_execution\":" + std::to_string(g_threads_max) +
+                  ",\"clients_hist\":[" + std::to_string(st.clients_hist[1]) + "," + std::to_string(st.clients_hist[2]) + "," + std::to_string(st.clients_hist[3]) + "," + std::to_string(st.clients_hist[4]) + "," +
+                  std::to_string(st.clients_hist[5]) + "," + std::to_string(st.clients_hist[6]) + "," + std::to_string(st.clients_hist[7]) + "," + std::to_string(st.clients_hist[8]) + "]";
   s += ",\"alias_same_client\":{";
   for (int a = 1; a < AL_N; ++a) s += std::string(a > 1 ? "," : "") + "\"" + alias_name[a] + "\":" + std::to_string(st.alias_same[a]);
   s += "},\"alias_cross_client\":{";
@@ -811,8 +868,8 @@ static int do_scan_serial(uint64_t seed0, uint64_t count, const char * hashfile,
     size_t n = p.items.size();
     std::vector<int> fwd(n), rev(n);
     for (size_t i = 0; i < n; ++i) { fwd[i] = static_cast<int>(i); rev[i] = static_cast<int>(n - 1 - i); }
-    std::vector<Res> ra = run_serial(p.items, fwd, p.clients);
-    std::vector<Res> rb = run_serial(p.items, rev, p.clients);
+    std::vector<Res> ra = run_serial(p.items, fwd, p.clients, p.respawn);
+    std::vector<Res> rb = run_serial(p.items, rev, p.clients, p.respawn);
     account_plan(st, p, ra, seed, 2);
     if (p.nontrivial && hf) fwrite(&p.hash, 8, 1, hf);
     // oracle 1: the two histories must agree item by item; any disagreement is confirmed against isolation
@@ -837,7 +894,7 @@ static int do_scan_serial(uint64_t seed0, uint64_t count, const char * hashfile,
       else if (rb[i].status != 255 && !same(rb[i], iso)) { for (int j = static_cast<int>(n) - 1; j >= i; --j) order.push_back(j); bad = true; }
       if (bad)
         {
-        if (report(seed, "serial", serial_schedule(p.items, order, p.clients), i, iso)) ++st.findings; else ++st.unstable;
+        if (report(seed, "serial", serial_schedule(p.items, order, p.clients, p.respawn), i, iso)) ++st.findings; else ++st.unstable;
         break;
         }
       }
@@ -861,7 +918,7 @@ static int do_scan_fine(uint64_t seed0, uint64_t count, const char * hashfile, u
     size_t n = p.items.size();
     std::vector<int> fwd(n);
     for (size_t i = 0; i < n; ++i) fwd[i] = static_cast<int>(i);
-    std::vector<Res> ra = run_serial(p.items, fwd, p.clients);
+    std::vector<Res> ra = run_serial(p.items, fwd, p.clients, p.respawn);
     account_plan(st, p, ra, seed, 1 + variants);
     bool found = false;
     for (int v = 0; v < variants && !found; ++v)
@@ -889,7 +946,7 @@ static int do_scan_fine(uint64_t seed0, uint64_t count, const char * hashfile, u
         else if (!same(ra[i], iso))
           {
           std::vector<int> order; for (int j = 0; j <= static_cast<int>(i); ++j) order.push_back(j);
-          if (report(seed, "serial", serial_schedule(p.items, order, p.clients), static_cast<int>(i), iso)) ++st.findings; else ++st.unstable; found = true;
+          if (report(seed, "serial", serial_schedule(p.items, order, p.clients, p.respawn), static_cast<int>(i), iso)) ++st.findings; else ++st.unstable; found = true;
           }
         }
       }
@@ -903,12 +960,13 @@ static int do_scan_fine(uint64_t seed0, uint64_t count, const char * hashfile, u
 // stdin:  clients N / seg / call <client> <op> <a hex> <b hex> / sw <from> <at_yield|-1> <to> / victim <seg> <call>
 static int do_exec()
   {
-  char line[512]; Schedule sc; sc.clients = 1; int vseg = -1, vcall = -1;
+  char line[512]; Schedule sc; sc.clients = 1; int vseg = -1, vcall = -1; std::vector<uint8_t> pending_respawn;
   while (fgets(line, sizeof line, stdin))
     {
     char name[256]; unsigned c, f, t; long long idx; unsigned long long a, b; int x, y;
     if (sscanf(line, "clients %d", &sc.clients) == 1) continue;
-    if (strncmp(line, "seg", 3) == 0) { Segment g; g.den = 0; g.budget = 0; sc.segs.push_back(g); continue; }
+    if (strncmp(line, "seg", 3) == 0) { Segment g; g.den = 0; g.budget = 0; g.respawn = pending_respawn; pending_respawn.clear(); sc.segs.push_back(g); continue; }
+    if (sscanf(line, "respawn %u", &c) == 1) { pending_respawn.push_back(static_cast<uint8_t>(c)); continue; }
     if (sscanf(line, "call %u %255s %llx %llx", &c, name, &a, &b) == 4)
       {
       int oi = op_index(name);
